@@ -381,6 +381,21 @@ func warningQuoted(r *Report, wf *ssa.Function) {
 			}
 		}
 	}
+	// ... and is added whatever the error says: no path through Warning returns without
+	// the header having been added (a cap on the text length, a filter on the error kind)
+	{
+		g := G(wf)
+		isAdd := func(i ssa.Instruction) bool {
+			c, ok := i.(*ssa.Call)
+			if !ok {
+				return false
+			}
+			n := calleeName(c)
+			return (n == "(net/http.Header).Add" || n == "(net/http.Header).Set") && len(c.Call.Args) > 1 && func() bool { k, isK := constString(c.Call.Args[1]); return isK && k == "Warning" }()
+		}
+		p := g.PathTo([]ssa.Instruction{g.Entry()}, true, isAdd, isReturn)
+		r.Decide("path", "M/proxyutil.Warning adds the header on every path", p == nil, "header.Add(\"Warning\", ...) lies on every path to the return", "some errors produce no Warning header (a return before header.Add): the 502 / the modified message goes out without the Warning the property promises", wf.Pos())
+	}
 	r.Decide("table", "M/proxyutil.Warning quotes the error text", quoted, "the error text is formatted with %q / strconv.Quote", "the error text is put into the Warning header as it is: an error message containing a line break makes the header invalid, the transport refuses the request, and a modifier error aborts the exchange instead of being surfaced", at)
 }
 
@@ -398,44 +413,7 @@ func c01(r *Report) {
 	g := G(handle)
 
 	r.Guard("C01.R1", "exactly one response is written and then flushed on every normal exit of the exchange function", func() {
-		isWrite := func(i ssa.Instruction) bool { _, ok := isCall(i, nResWrite); return ok }
-		isFlush := func(i ssa.Instruction) bool { _, ok := isCall(i, nFlush); return ok }
-		wn := countBefore(handle, isWrite)
-		fn := countBefore(handle, isFlush)
-		for k, ret := range returns(handle) {
-			if ret.Block() == handle.Recover {
-				continue
-			}
-			kind, classes := exitKind(handle, ret)
-			key := fmt.Sprintf("(*M.Proxy).handle: %s exit #%d", kind, k+1)
-			r.Paths++
-			switch kind {
-			case "error":
-				r.Note("C01.R1 error exit not judged: %s returns %v (%s)", key, classes, w.Pos(ret.Pos()))
-				continue
-			case "hijack", "delegate":
-				ok := wn[ret] == cnt{0, 0}
-				r.Decide("path", key, ok, "no response written by the proxy on this exit", "the proxy writes a response on a hijack/delegation exit: write count "+wn[ret].String(), ret.Pos())
-			default:
-				ok := wn[ret] == cnt{1, 1} && fn[ret].Min >= 1
-				why := fmt.Sprintf("write count %v, flush count %v", wn[ret], fn[ret])
-				if ok {
-					// a flush follows the write on every path to this return
-					for _, wr := range plainCalls(handle, nResWrite) {
-						if p := g.PathTo([]ssa.Instruction{wr}, false, isFlush, func(i ssa.Instruction) bool { return i == ssa.Instruction(ret) }); p != nil {
-							ok = false
-							why = "a path from the write to this return has no flush"
-						}
-					}
-				}
-				r.Decide("path", key, ok, "one write followed by a flush on every path", "normal exit without exactly one written and flushed response: "+why, ret.Pos())
-			}
-		}
-		// the write and the flush go to the client's buffered writer
-		for _, wr := range plainCalls(handle, nResWrite) {
-			ok := anyIn(w.backSlice(wr.Call.Args[1], flowOpt{}), func(v ssa.Value) bool { return v == ssa.Value(handle.Params[3]) })
-			r.Decide("flow", "(*M.Proxy).handle: response written to the client's brw", ok, "destination is the brw parameter", "response written somewhere other than the client's buffered writer", wr.Pos())
-		}
+		responseWrittenRule(r, handle)
 	})
 
 	r.Guard("C01.R2", "the request body is closed on every exit after a successful read", func() {
@@ -474,6 +452,92 @@ func c01(r *Report) {
 		})
 		r.Paths++
 		r.Decide("path", key, p == nil, "the deferred close is registered before any exit or modifier call", "an exit or a modifier call is reachable before the body close is registered", def.Pos())
+	})
+
+	r.Guard("C01.R5", "the configured timeout is the one the deadline is armed with", func() {
+		setterStoresRule(r, "", "Proxy", "SetTimeout", "timeout", "the connection deadline is armed with the default whatever the user configures")
+		// a deadline is armed on the client connection by the connection loop and nowhere
+		// else in the core (connect's own arm/disarm pair is C04.R3): a deadline left on a
+		// dialled connection outlives the exchange, because the transport pools it
+		for _, f := range w.Funcs("") {
+			for _, c := range calls(f) {
+				cc := c.Common()
+				name := ""
+				if cc.IsInvoke() {
+					name = cc.Method.Name()
+				} else if sc := cc.StaticCallee(); sc != nil {
+					name = sc.Name()
+				}
+				if name != "SetDeadline" && name != "SetReadDeadline" && name != "SetWriteDeadline" {
+					continue
+				}
+				if fnName(f) == "(*M.Proxy).connect" {
+					continue
+				}
+				recv := cc.Value
+				if !cc.IsInvoke() && len(cc.Args) > 0 {
+					recv = cc.Args[0]
+				}
+				okSite := f == loop && len(loop.Params) > 1 && isParamVal(recv, loop.Params[1])
+				r.Decide("callgraph", "deadline armed at "+site(f, c), okSite, "the connection loop, on the client connection", "a deadline is armed on a connection outside the connection loop ("+fnName(f)+"): on an upstream connection it stays armed while the transport reuses the connection, and a later exchange fails when it expires", c.Pos())
+			}
+		}
+		// the default transport carries no limit that turns a legitimate origin response
+		// into a 502
+		deny := map[string]string{
+			"MaxResponseHeaderBytes": "responses with a larger head", "ResponseHeaderTimeout": "responses from a slow origin",
+			"MaxConnsPerHost": "concurrent requests beyond the cap (they queue)", "DisableKeepAlives": "upstream connection reuse",
+		}
+		nlim := 0
+		for _, f := range w.Funcs("") {
+			for _, in := range instrs(f) {
+				st, ok := in.(*ssa.Store)
+				if !ok {
+					continue
+				}
+				fa, ok := st.Addr.(*ssa.FieldAddr)
+				if !ok || fa.X.Type().String() != "*net/http.Transport" {
+					continue
+				}
+				if what, bad := deny[fieldObj(fa).Name()]; bad {
+					nlim++
+					r.Fail("table", fnName(f)+": http.Transport."+fieldObj(fa).Name()+" is set", "the proxy's transport is given a limit that affects "+what+": the client receives a 502 (or waits) where the origin's response would have been relayed", nil, st.Pos())
+				}
+			}
+		}
+		r.Decide("table", "M: the proxy's http.Transport carries no response limit", nlim == 0, "none of MaxResponseHeaderBytes, ResponseHeaderTimeout, MaxConnsPerHost, DisableKeepAlives is set in the core", "see the individual constructs")
+	})
+
+	r.Guard("C01.R2", "the request body is closed by the deferred close only", func() {
+		requestBodyClosedOnlyByDefer(r, handle)
+	})
+
+	r.Guard("C01.R2", "the response body is closed on every exit once there is a response", func() {
+		// (the upstream connection goes back to the transport's pool only when the body has
+		// been closed; without it every exchange strands one upstream connection)
+		var def ssa.Instruction
+		for _, c := range calls(handle, "(io.Closer).Close") {
+			d, ok := c.(*ssa.Defer)
+			if !ok {
+				continue
+			}
+			ld, ok := d.Call.Value.(*ssa.UnOp)
+			if !ok {
+				continue
+			}
+			if fa, ok := ld.X.(*ssa.FieldAddr); ok && fieldObj(fa).Name() == "Body" && fa.X.Type().String() == "*net/http.Response" {
+				def = d
+			}
+		}
+		okD := false
+		if def != nil {
+			for _, wc := range calls(handle, nResWrite) {
+				if g.Before(def, wc) {
+					okD = true
+				}
+			}
+		}
+		r.Decide("path", "(*M.Proxy).handle: defer res.Body.Close()", okD, "registered before the response is written, so it runs on every later exit", "the response body is not closed on every exit: the upstream connection is never returned to the transport", handle.Pos())
 	})
 
 	r.Guard("C01.R3", "either side asking to close, or shutdown, marks the response close and ends the connection", func() {
@@ -676,4 +740,74 @@ func c01(r *Report) {
 			}
 		}
 	})
+}
+
+// responseWrittenRule: exactly one response is written and then flushed on
+// every normal exit of the exchange function (C01.R1; also C07.R5: the
+// complete response of an exchange in flight reaches the client before the
+// connection is closed by shutdown).
+func responseWrittenRule(r *Report, handle *ssa.Function) {
+	w := r.W
+	g := G(handle)
+	isWrite := func(i ssa.Instruction) bool { _, ok := isCall(i, nResWrite); return ok }
+	isFlush := func(i ssa.Instruction) bool { _, ok := isCall(i, nFlush); return ok }
+	wn := countBefore(handle, isWrite)
+	fn := countBefore(handle, isFlush)
+	for k, ret := range returns(handle) {
+		if ret.Block() == handle.Recover {
+			continue
+		}
+		kind, classes := exitKind(handle, ret)
+		key := fmt.Sprintf("(*M.Proxy).handle: %s exit #%d", kind, k+1)
+		r.Paths++
+		switch kind {
+		case "error":
+			r.Note("C01.R1 error exit not judged: %s returns %v (%s)", key, classes, w.Pos(ret.Pos()))
+			continue
+		case "hijack", "delegate":
+			ok := wn[ret] == cnt{0, 0}
+			r.Decide("path", key, ok, "no response written by the proxy on this exit", "the proxy writes a response on a hijack/delegation exit: write count "+wn[ret].String(), ret.Pos())
+		default:
+			ok := wn[ret] == cnt{1, 1} && fn[ret].Min >= 1
+			why := fmt.Sprintf("write count %v, flush count %v", wn[ret], fn[ret])
+			if ok {
+				// a flush follows the write on every path to this return
+				for _, wr := range plainCalls(handle, nResWrite) {
+					if p := g.PathTo([]ssa.Instruction{wr}, false, isFlush, func(i ssa.Instruction) bool { return i == ssa.Instruction(ret) }); p != nil {
+						ok = false
+						why = "a path from the write to this return has no flush"
+					}
+				}
+			}
+			r.Decide("path", key, ok, "one write followed by a flush on every path", "normal exit without exactly one written and flushed response: "+why, ret.Pos())
+		}
+	}
+	// the write and the flush go to the client's buffered writer
+	for _, wr := range plainCalls(handle, nResWrite) {
+		ok := anyIn(w.backSlice(wr.Call.Args[1], flowOpt{}), func(v ssa.Value) bool { return v == ssa.Value(handle.Params[3]) })
+		r.Decide("flow", "(*M.Proxy).handle: response written to the client's brw", ok, "destination is the brw parameter", "response written somewhere other than the client's buffered writer", wr.Pos())
+	}
+}
+
+// requestBodyClosedOnlyByDefer: the exchange function closes the request body
+// through its deferred close and nowhere else. An early Close drains (or cuts)
+// what follows the request head: before the CONNECT hand-off that is tunnel
+// data, before the round trip it is the upload.
+func requestBodyClosedOnlyByDefer(r *Report, handle *ssa.Function) {
+	req := requestValue(handle)
+	n := 0
+	for _, c := range calls(handle, "(io.Closer).Close") {
+		if _, isDefer := c.(*ssa.Defer); isDefer {
+			continue
+		}
+		ld, ok := c.Common().Value.(*ssa.UnOp)
+		if !ok {
+			continue
+		}
+		if fa, ok := ld.X.(*ssa.FieldAddr); ok && fa.X == req && fieldObj(fa).Name() == "Body" {
+			n++
+			r.Fail("path", "(*M.Proxy).handle: req.Body.Close() outside the deferred close", "the request body is closed in the middle of the exchange: closing drains what follows the head, which before the CONNECT hand-off is the first bytes of the tunnel (they never reach the target), and before the round trip is the upload", nil, c.Pos())
+		}
+	}
+	r.Decide("path", "(*M.Proxy).handle: the request body is closed by the deferred close only", n == 0, "no plain Close of req.Body in the exchange function", "see the individual constructs")
 }
